@@ -180,6 +180,17 @@ LEDGER_STMTS = [
     ("SELECT account, balance, number FROM #postings WHERE number > %(lo)s AND number < %(hi)s LIMIT 25",
      [{'lo': D('10'), 'hi': D('50')}, {'lo': D('50'), 'hi': D('10')}, {'hi': D('400'), 'lo': D('-400')}]),
 ]
+# statements whose results must not depend on what ran before on the connection (or in the process): each pair is
+# (statement, an equivalent formulation); SELECT * FROM (q) = q is the law C08 model-checks (StarIdentity)
+PROBES = [
+    ("SELECT * FROM (SELECT x AS a FROM #t)", "SELECT x AS a FROM #t"),
+    ("SELECT * FROM (SELECT s AS b, x FROM #t)", "SELECT s AS b, x FROM #t"),
+    ("SELECT * FROM (SELECT x, x + 1 AS c, s FROM #t WHERE x > 0)", "SELECT x, x + 1 AS c, s FROM #t WHERE x > 0"),
+    ("SELECT * FROM (SELECT y FROM #u)", "SELECT y FROM #u"),
+    ("SELECT a FROM (SELECT y AS a FROM #u)", "SELECT y AS a FROM #u"),
+]
+PROBE_REJECTED = ["SELECT c FROM (SELECT x AS a FROM #t)", "SELECT b FROM (SELECT y AS a FROM #u)", "SELECT a + 1 FROM (SELECT s AS b FROM #t)"]
+
 OTHER_STMTS = [
     "SELECT x FROM #t ORDER BY x DESC",
     "SELECT s, count(*) AS n FROM #t GROUP BY s",
@@ -223,6 +234,8 @@ class Session:
         self.others = [bm.parsed(t) for t in OTHER_STMTS if ledger or 'postings' not in t and 'entries' not in t]
         self.ledger_stmts = [(t, bm.parsed(t), ps) for t, ps in LEDGER_STMTS] if ledger else []
         self.counts = {}
+        self.has_tu = 't' in self.conn.tables and 'u' in self.conn.tables and all(
+            c in self.conn.tables['t'].columns for c in ('x', 's')) and 'y' in self.conn.tables['u'].columns
 
     def count(self, k, n=1):
         self.counts[k] = self.counts.get(k, 0) + n
@@ -285,6 +298,31 @@ class Session:
                 pass
 
 
+def probe(ctx, sess, rng, case):
+    """history independence of statements over FROM-subqueries: after any history, q and SELECT * FROM (q) agree and
+    references to names another subquery defined are still rejected"""
+    a, b = rng.choice(PROBES)
+    ra = bm.run_raw(sess.conn, bm.parsed(a))
+    rb = bm.run_raw(sess.conn, bm.parsed(b))
+    sess.count('probes')
+    if ra[0] != 'ok' or rb[0] != 'ok':
+        if ra[0] != rb[0]:
+            ctx.violation('history:probe:exception:%s' % (ra[1] if ra[0] != 'ok' else rb[1]),
+                          'a statement over a FROM-subquery fails after other executions: %s' % a, dict(case, probe=a), 'S2C', rb[:2], ra[:2])
+        return
+    da = [(c.name, bm.typename(c.datatype)) for c in ra[1]]
+    db = [(c.name, bm.typename(c.datatype)) for c in rb[1]]
+    if da != db or ra[2] != rb[2]:
+        ctx.violation('history:probe:star-over-subquery', 'SELECT * FROM (q) differs from q after other executions on the connection',
+                      dict(case, probe=a), 'S2C', [db, rb[2][:5]], [da, ra[2][:5]])
+    t = rng.choice(PROBE_REJECTED)
+    rr = bm.run_raw(sess.conn, bm.parsed(t))
+    if rr[0] == 'ok' or rr[1] != 'CompilationError':
+        ctx.violation('history:probe:stale-name:%s' % (rr[1] if rr[0] != 'ok' else 'accepted'),
+                      'a column name defined only by an earlier subquery resolves (or fails oddly): %s' % t, dict(case, probe=t), 'S2C',
+                      'CompilationError', rr[:2] if rr[0] != 'ok' else 'accepted')
+
+
 def is_reexec_defect(obs, st, op, objs_used_before, k_in_many):
     return (not obs['ok'] and obs.get('exc') == 'ProgrammingError' and 'cannot be mixed' in obs.get('msg', '')
             and st.nph >= 2 and all(n == '' for _, n in placeholders(st.q)))
@@ -339,6 +377,8 @@ def replay_history(ctx, sess, hist, hid, rng):
                 ok = False
         if op == 'execute':
             executed.add(s)
+    if rng is not None and sess.has_tu and rng.random() < 0.5:
+        probe(ctx, sess, rng, {'kind': 'history', 'hist': hist, 'setup': sess.setup})
     return ok
 
 
